@@ -14,6 +14,7 @@ import hashlib
 
 import numpy as np
 
+from simkit.world import sub_rng
 from . import mlmc_stub as M
 
 ID = "C06"
@@ -43,7 +44,10 @@ TIERS = {
 
 
 def generate(seed, tier="quick"):
-    return M.generate(seed, tier, label="c06")
+    sc = M.generate(seed, tier, label="c06")
+    r = sub_rng(seed, "c06.theta")
+    sc["theta"] = r.choice([0.1, 0.5, 0.6]) if r.random() < 0.1 else None
+    return sc
 
 
 shrink_candidates = M.shrink_candidates
@@ -100,10 +104,30 @@ def probe_family(seed):
 
 
 def execute(wd, sc):
+    import rpylib.montecarlo.multilevel.criteria as crit_mod
+
+    shipped = getattr(crit_mod, "THETA", None)
+    try:
+        return _execute(wd, sc)
+    finally:
+        if shipped is not None:
+            crit_mod.THETA = shipped  # worlds may also run one after the other in one interpreter (digest self-test)
+
+
+def _execute(wd, sc):
     from rpylib.montecarlo.multilevel.criteria import compute_mc_paths_giles
 
     V, errors = [], []
     cls = f"criteria={sc['criteria']}|procs={'1' if sc['nproc'] == 1 else 'pool'}"
+    # ---- configuration: the library's one knob for the split of rmse^2 between squared bias and variance is the module
+    # constant THETA; a tenth of the worlds move it (each world lives in its own process) - the two shares must follow it
+    import rpylib.montecarlo.multilevel.criteria as crit_mod
+
+    theta = sc.get("theta")
+    if theta is not None and hasattr(crit_mod, "THETA"):
+        crit_mod.THETA = float(theta)
+        wd.probes["c06.theta_moved"] += 1
+        cls += "|theta-moved"
     # ---- A (shares) --------------------------------------------------------------------------------
     s, b = measure_shares()
     wd.probes["c06.share_measured"] += 1
